@@ -49,7 +49,15 @@ TASK_IDS = ["a", "c", "c.b", "c.m", "c.d"]
 PARTIAL = 'task u "u" { effort 2h }\ntask v "v" { effort 2h allocate r0 depends !w }\ntask w "w" { effort 2h allocate r0 depends !v }\n'
 
 
+# a project with more than a thousand tasks for the scheduler to place (progress indication, if any, belongs on stderr)
+LARGE_N = 1200
+LARGE = ('project p "P" 2024-01-01 +8w {\n  timezone "UTC"\n}\n' + "".join('resource q%d "Q" {}\n' % i for i in range(40))
+         + "".join('task w%04d "W" { effort 2h allocate q%d }\n' % (i, i % 40) for i in range(LARGE_N)))
+
+
 def ids_for(sit):
+    if sit["input"] == "large":
+        return ["w%04d" % i for i in range(LARGE_N)]
     return TASK_IDS + (["u", "v", "w"] if sit["input"] == "partial" else [])
 
 
@@ -98,6 +106,8 @@ def text_for(sit):
         return BASE + OWN[sit["own"]]
     if i in ("badfname", "nlfname"):
         return BASE + OWN[sit["own"]]
+    if i == "large":
+        return LARGE
     if i == "nonascii":       # valid UTF-8 beyond ASCII in a name: the bytes are what is hashed, whatever the locale
         return (BASE + OWN[sit["own"]]).replace('task a "a"', 'task a "Caf\u00e9 \u2013 \u6771\u4eac"')
     if i == "partial":
